@@ -12,7 +12,7 @@ COQ_CASE_TYPE = "case07"
 SHARD = 40
 RULE = ("sequences of 1..6 legacy requests (OK-terminated queries, the documented no-OK queries a/i/mr/pi/qm/qg/v in any case and with arguments, commands, "
         "missing port / missing text) against the conforming legacy board: each reply line preceded by 0, 1, 99, 100 or 101 empty reads at each of its positions; "
-        "plus one disturbance: SerialException at the write or at any read, an error line, total silence; "
+        "plus one disturbance: an I/O exception (pyserial's SerialException / SerialTimeoutException / PortNotOpenError or a plain OSError) at the write (attempts are counted) or at any read, an error line, total silence; "
         "non-trivial = a reply preceded by at least one empty read, or a disturbance")
 TRUSTED = ["pyserial behaviour = fake port", "the conforming legacy board: data line then OK for ordinary queries, one line for the no-OK queries, OK for commands"]
 ASSUMPTIONS = ["ASCII replies; faults are SerialException"]
@@ -70,19 +70,34 @@ def generate(rng, tier):
                 else:
                     exps = [None] * len(exps) if fam != "conforming" else exps
         cases.append({"has_port": hp, "reqs": reqs, "events": sum(parts, []), "expect": exps if hp else [None] * len(exps), "family": fam if hp else "no-port"})
+        if fam == "fault" and hp:
+            cases[-1]["fault_cls"] = rng.choice(["SerialException", "SerialTimeoutException", "SerialTimeoutException", "OSError", "PortNotOpenError", None])
+    # a fault exactly at the write of a request (a full output buffer: pyserial raises SerialTimeoutException, possibly after part of the
+    # text has gone out): the request is attempted once, not repeated
+    for _ in range(max(10, n // 15)):
+        kind = "q" if rng.random() < 0.6 else "c"; text = rng.choice(QUERIES if kind == "q" else COMMANDS)
+        after_kind = "q" if rng.random() < 0.5 else "c"; after_text = rng.choice(QUERIES if after_kind == "q" else COMMANDS)
+        ev2, data2 = _reply(rng, after_kind, after_text, 1)
+        cases.append({"has_port": True, "reqs": [(kind, text), (after_kind, after_text)], "events": ["F"] + ev2, "expect": ["" if kind == "q" else None, data2],
+                      "fault_cls": rng.choice(["SerialTimeoutException", "SerialTimeoutException", "SerialException", "OSError"]), "family": "fault-at-the-write"})
     return cases
 
 def run_impl(c):
     script = S.Script(c["events"])
     port = S.FakePort(script) if c["has_port"] else None
+    if port is not None and c.get("fault_cls"):
+        port.force_fault = {"SerialException": serial.SerialException, "SerialTimeoutException": serial.SerialTimeoutException, "OSError": OSError,
+                            "PortNotOpenError": serial.serialutil.PortNotOpenError}[c["fault_cls"]]
     obs = []
     for kind, text in c["reqs"]:
-        bw = len(port.writes) if port else 0; bc = script.consumed
+        bw = len(port.writes) if port else 0; bc = script.consumed; ba = port.write_attempts if port else 0
         raised, ret = None, None
         try:
             ret = ebb_serial.query(port, text, False) if kind == "q" else ebb_serial.command(port, text, False)
         except BaseException as e:
             raised = type(e).__name__
+        if port is not None and port.write_attempts - ba > 1 and raised is None:
+            raised = "WroteTwice"             # "write the request exactly once": a second attempt after a failed write is a second write
         is_str = isinstance(ret, str)
         rt = None if ret is None else (ret if isinstance(ret, str) else bytes(ret).decode("latin-1"))
         writes = [d.decode("latin-1") for d in (port.writes[bw:] if port else [])]
